@@ -1,17 +1,21 @@
 #!/usr/bin/env python3
 """Re-runs the quick checks against every kept seeded change (detection only; the changes
-were confirmed when they were first kept). Applies each patch to /repo, runs the checks
-listed in meta.json 'breaks', undoes the patch, updates meta.json 'detection'.
+were confirmed when they were first kept). Applies each patch to a scratch worktree of
+/repo HEAD (never to /repo itself: a killed run once left a seeded change behind in /repo's
+working tree), runs the checks listed in meta.json 'breaks' with VERIF_REPO pointing there,
+undoes the patch, updates meta.json 'detection'.
 
 usage: seedall.py [name-prefix ...]"""
 import json, os, subprocess, sys, glob, time
 
 ENV = dict(os.environ, GOFLAGS="-mod=mod", GOPROXY="off", GOSUMDB="off", GOTOOLCHAIN="local", VERIF_NO_EVIDENCE="1")
-# SEED_REPO: apply the patches to another checkout (e.g. the repo snapshot of a `vp run --with-repo`)
-REPO = os.environ.get("SEED_REPO", "/repo")
+# SEED_REPO: apply the patches to this checkout (e.g. the repo snapshot of a `vp run --with-repo`)
+# instead of a scratch worktree made here.  /repo itself is refused.
+OWN = "SEED_REPO" not in os.environ
+REPO = os.environ.get("SEED_REPO", "/tmp/seedrepo-all-%d" % os.getpid())
 VERIF = os.path.dirname(os.path.dirname(os.path.abspath(__file__)))
-if REPO != "/repo":
-    ENV["VERIF_REPO"] = REPO
+assert os.path.realpath(REPO) != "/repo", "seeded changes are never applied to /repo itself"
+ENV["VERIF_REPO"] = REPO
 
 
 def sh(cmd, cwd=None):
@@ -21,8 +25,20 @@ def sh(cmd, cwd=None):
 
 def main():
     want = sys.argv[1:]
+    if OWN:
+        sh("git -C /repo worktree prune")
+        rc, out = sh("git -C /repo worktree add --detach %s HEAD" % REPO)
+        assert rc == 0, out
+    try:
+        run(want)
+    finally:
+        if OWN:
+            sh("git -C /repo worktree remove --force %s" % REPO)
+
+
+def run(want):
     rc, out = sh("git -C %s status --porcelain" % REPO)
-    assert out.strip() == "", "/repo not clean: " + out
+    assert out.strip() == "", REPO + " not clean: " + out
     summary = []
     for d in sorted(glob.glob(os.path.join(VERIF, "seeded", "*"))):
         name = os.path.basename(d)
@@ -57,7 +73,7 @@ def main():
             sh("git -C %s checkout -- ." % REPO)
         json.dump(meta, open(mp, "w"), indent=1)
     rc, out = sh("git -C %s status --porcelain" % REPO)
-    assert out.strip() == "", "/repo not restored: " + out
+    assert out.strip() == "", REPO + " not restored: " + out
     missed = [n for n, c in summary if not c]
     print("seeded changes: %d, caught: %d, missed: %s" % (len(summary), len(summary) - len(missed), missed))
 
